@@ -174,6 +174,8 @@ func c10newFix(t *testing.T) *c10fix {
 var c10names = []string{"b1", "b2", "b3", "b4", "auction", "collector", "owner", "keeper", "initiator", "reserve", "vault", "pool", "lendres", "poolin", "esm"}
 
 type c10seq struct {
+	ownerAddr sdk.AccAddress // owner of the SEIZED position (read from the locked-vault record at seizure): printed as "owner"
+	otherAddr sdk.AccAddress // owner of the other position seized in the same world, if any: printed as "initiator"
 	poolMod   string // lend: module account of the debt pool
 	poolInMod string // lend, cross-pool borrow: module account of the pool the collateral was lent to
 	transit   string // lend, cross-pool borrow: denom of the bridge asset
@@ -216,8 +218,15 @@ func (s *c10seq) acct(name string) sdk.AccAddress {
 			return s.f.app.AccountKeeper.GetModuleAddress(s.poolInMod)
 		}
 	case "owner":
+		if s.ownerAddr != nil {
+			return s.ownerAddr
+		}
 		if s.f.lend {
 			return s.f.lendOwner
+		}
+	case "initiator":
+		if s.otherAddr != nil {
+			return s.otherAddr
 		}
 	}
 	return c10addr(name)
@@ -372,6 +381,12 @@ func c10newLendFix(t *testing.T) *c10fix {
 	deliver(lendtypes.NewMsgFundModuleAccounts(2, a4, u1.String(), sdk.NewCoin("uasset4", sdk.NewInt(10000000000))))
 	deliver(lendtypes.NewMsgBorrow(u1.String(), 1, 1, false, sdk.NewCoin("ucasset1", sdk.NewInt(100000000)), sdk.NewCoin("uasset2", sdk.NewInt(70000000))))
 	deliver(lendtypes.NewMsgBorrow(u2.String(), 3, 1, false, sdk.NewCoin("ucasset1", sdk.NewInt(1000000000)), sdk.NewCoin("uasset2", sdk.NewInt(700000000))))
+	// a vault product of app 2 in the same world (collateral uasset1, debt uasset3 at a fixed 1 USD): lets vault and borrow
+	// liquidations interleave, so that the shared locked-vault id counter and the two auction id counters get out of step
+	must(app.AssetKeeper.AddPairsRecords(ctx, assettypes.Pair{AssetIn: a1, AssetOut: a3}))
+	must(app.AssetKeeper.WasmAddExtendedPairsVaultRecords(ctx, &bindings.MsgAddExtendedPairsVault{AppID: 2, PairID: 1, StabilityFee: c10dec("0"), ClosingFee: c10dec("0"),
+		LiquidationPenalty: c10dec("0.12"), DrawDownFee: c10dec("0"), IsVaultActive: true, DebtCeiling: sdk.NewIntFromUint64(math.MaxInt64), DebtFloor: sdk.NewInt(1),
+		IsStableMintVault: false, MinCr: c10dec("1.5"), PairName: "LA", AssetOutOraclePrice: false, AssetOutPrice: 1000000, MinUsdValueLeft: 1000000}))
 	// borrow 3: cross-pool (pair 13: collateral uasset2 lent to pool 1, debt uasset4 from pool 2, bridged over a transit asset)
 	deliver(lendtypes.NewMsgBorrow(u1.String(), 2, 13, false, sdk.NewCoin("ucasset2", sdk.NewInt(100000000)), sdk.NewCoin("uasset4", sdk.NewInt(30000000))))
 	f.pairs = []c10pair{{coll: c10asset{a1, "uasset1", 1000000}, debt: c10asset{a2, "uasset2", 1000000}, extID: 0, cmst: false},
@@ -394,6 +409,9 @@ type c10cfg struct {
 	penaltyExt string
 	reserve    int64 // initial app reserve for the debt asset (0 = none)
 	second     bool  // a second position of the same pair is seized too (its collateral shares the module account)
+	trackSecond bool // follow the auction of the second position (owner: the other account)
+	shiftAuc   uint64 // auction-id counter ahead by this much (as English auctions of the module leave it)
+	shiftLv    uint64 // locked-vault-id counter ahead by this much (as other liquidations leave it)
 }
 
 // start builds one seized position the way the chain does and prints the begin line.
@@ -427,6 +445,14 @@ func c10start(t *testing.T, f *c10fix, tr *Trace, cfg c10cfg) *c10seq {
 	fail := func(why string) *c10seq {
 		tr.Count("setup:" + why)
 		return nil
+	}
+	if cfg.shiftAuc > 0 {
+		app.NewaucKeeper.SetAuctionID(ctx, app.NewaucKeeper.GetAuctionID(ctx)+cfg.shiftAuc)
+		tr.Count("world:auction-id-ahead")
+	}
+	if cfg.shiftLv > 0 {
+		app.NewliqKeeper.SetLockedVaultID(ctx, app.NewliqKeeper.GetLockedVaultID(ctx)+cfg.shiftLv)
+		tr.Count("world:locked-vault-id-ahead")
 	}
 	aucBefore := app.NewaucKeeper.GetAuctionID(ctx)
 	switch cfg.kind {
@@ -479,6 +505,10 @@ func c10start(t *testing.T, f *c10fix, tr *Trace, cfg c10cfg) *c10seq {
 		}
 	}
 	s.aucID = aucBefore + 1
+	if cfg.second && cfg.trackSecond {
+		s.aucID = aucBefore + 2
+		tr.Count("world:track-second-position")
+	}
 	a, err := app.NewaucKeeper.GetAuction(ctx, s.aucID)
 	if err != nil {
 		return fail("no-auction")
@@ -487,6 +517,17 @@ func c10start(t *testing.T, f *c10fix, tr *Trace, cfg c10cfg) *c10seq {
 	lv, found := app.NewliqKeeper.GetLockedVault(ctx, f.appID, s.lvID)
 	if !found {
 		return fail("no-locked-vault")
+	}
+	// the owner the unsold collateral is owed to is the one recorded at seizure
+	if oa, err := sdk.AccAddressFromBech32(lv.Owner); err == nil {
+		s.ownerAddr = oa
+		if cfg.second {
+			if oa.Equals(c10addr("owner")) {
+				s.otherAddr = c10addr("initiator")
+			} else {
+				s.otherAddr = c10addr("owner")
+			}
+		}
 	}
 	lendExtra := ""
 	if lv.InitiatorType == "lend" {
@@ -880,6 +921,15 @@ func c10genCfg(f *c10fix, rng *Rng) c10cfg {
 	if cfg.kind == "external" && cfg.reserve == 0 {
 		cfg.reserve = int64(1 + rng.Intn(100000))
 	}
+	// id worlds: counters out of step, two positions of different owners open at once
+	if rng.Chance(40) {
+		cfg.shiftAuc = []uint64{0, 1, 3}[rng.Intn(3)]
+		cfg.shiftLv = []uint64{0, 1, 2}[rng.Intn(3)]
+	}
+	if cfg.kind != "external" && rng.Chance(35) {
+		cfg.second = true
+		cfg.trackSecond = rng.Chance(50)
+	}
 	return cfg
 }
 
@@ -1020,7 +1070,7 @@ func (s *c10seq) randomOps(rng *Rng, cfg c10cfg) {
 				s.setDebt(nt, !rng.Chance(15))
 			}
 			s.tick(time.Duration(dt) * time.Second)
-		case r < 92 && s.kind != "lend":
+		case r < 92 && s.kind != "lend" && !cfg.second:
 			// (not after a lend sweep: it seizes both borrows of the fixture, the second auction would share the limit book)
 			// limit deposit aimed at the premium bucket the auction is in or will reach
 			prem := int64(0)
@@ -1105,6 +1155,11 @@ type c10cfg1 struct {
 	buffer    string
 	cusp      string
 	collector int64 // funds and net-fee record of the collector for the debt asset (0 = no record)
+	two         bool   // a second vault (other owner) of the same pair is seized in the same sweep
+	trackSecond bool
+	shiftAuc    uint64 // auction-id counter ahead (surplus / debt auctions share it)
+	shiftLv     uint64 // locked-vault-id counter ahead (borrow liquidations share it)
+	lendFirst   bool   // lend fixture only: a real borrow liquidation comes first and takes locked vault id 1
 }
 
 func c10start1(t *testing.T, f *c10fix, tr *Trace, cfg c10cfg1) *c10seq1 {
@@ -1140,12 +1195,38 @@ func c10start1(t *testing.T, f *c10fix, tr *Trace, cfg c10cfg1) *c10seq1 {
 	if !ok {
 		return fail("vault-create")
 	}
+	if cfg.two {
+		c10fund(t, app, ctx, c10addr("initiator"), s.p.coll.denom, cfg.amountIn)
+		if ok, _ := c10deliver(app, ctx, &vaulttypes.MsgCreateRequest{From: c10addr("initiator").String(), AppId: f.appID, ExtendedPairVaultId: s.p.extID, AmountIn: cfg.amountIn, AmountOut: cfg.amountOut}); !ok {
+			return fail("vault-create2")
+		}
+	}
 	c10setTwa(app, ctx, s.p.coll.id, cfg.dropTo, true)
+	if cfg.shiftAuc > 0 {
+		app.AuctionKeeper.SetAuctionID(ctx, app.AuctionKeeper.GetAuctionID(ctx)+cfg.shiftAuc)
+		tr.Count("world1:auction-id-ahead")
+	}
+	if cfg.shiftLv > 0 {
+		app.LiquidationKeeper.SetLockedVaultID(ctx, app.LiquidationKeeper.GetLockedVaultID(ctx)+cfg.shiftLv)
+		tr.Count("world1:locked-vault-id-ahead")
+	}
+	if cfg.lendFirst {
+		_ = app.LendKeeper.AddAuctionParamsData(ctx, lendtypes.AuctionParams{AppId: 3, AuctionDurationSeconds: cfg.T, Buffer: c10dec(cfg.buffer), Cusp: c10dec(cfg.cusp),
+			Step: sdk.NewInt(1), PriceFunctionType: 1, DutchId: 3, BidDurationSeconds: 3600})
+		// the real thing: a borrow liquidation takes the next locked-vault id (and a LEND auction id, a different counter)
+		if ok, _ := c10deliver(app, ctx, &liquidationtypes.MsgLiquidateBorrowRequest{From: c10addr("keeper").String(), BorrowId: 1}); ok {
+			tr.Count("world1:borrow-liquidated-first")
+		}
+	}
 	before := app.AuctionKeeper.GetAuctionID(ctx)
 	if err := app.LiquidationKeeper.LiquidateVaults(ctx); err != nil {
 		return fail("liquidate")
 	}
 	s.aucID = before + 1
+	if cfg.two && cfg.trackSecond {
+		s.aucID = before + 2
+		tr.Count("world1:track-second-vault")
+	}
 	a, err := app.AuctionKeeper.GetDutchAuction(ctx, f.appID, s.mapID, s.aucID)
 	if err != nil {
 		return fail("no-auction")
@@ -1153,6 +1234,19 @@ func c10start1(t *testing.T, f *c10fix, tr *Trace, cfg c10cfg1) *c10seq1 {
 	lv, found := app.LiquidationKeeper.GetLockedVault(ctx, f.appID, a.LockedVaultId)
 	if !found {
 		return fail("no-locked-vault")
+	}
+	if a.AuctionId != lv.LockedVaultId {
+		tr.Count("world1:auction-id-differs-from-locked-vault-id")
+	}
+	if oa, err := sdk.AccAddressFromBech32(lv.Owner); err == nil {
+		s.ownerAddr = oa // from the seizure
+		if cfg.two {
+			if oa.Equals(c10addr("owner")) {
+				s.otherAddr = c10addr("initiator")
+			} else {
+				s.otherAddr = c10addr("owner")
+			}
+		}
 	}
 	ep, _ := app.AssetKeeper.GetPairsVault(ctx, lv.ExtendedPairId)
 	od := "0"
@@ -1238,6 +1332,14 @@ func c10genCfg1(f *c10fix, rng *Rng) c10cfg1 {
 		cfg.collector = int64(1 + rng.Intn(1000))
 	default:
 		cfg.collector = g.amountOut.Int64()*2 + 10
+	}
+	if rng.Chance(45) {
+		cfg.shiftAuc = []uint64{0, 1, 2}[rng.Intn(3)]
+		cfg.shiftLv = []uint64{0, 1, 3}[rng.Intn(3)]
+	}
+	if rng.Chance(45) {
+		cfg.two = true
+		cfg.trackSecond = rng.Chance(50)
 	}
 	return cfg
 }
@@ -1352,7 +1454,7 @@ func (s *c10seq1) randomOps1(rng *Rng, cfg c10cfg1) {
 				}
 				s.setDebt(nt, !rng.Chance(15))
 			}
-			if rng.Chance(12) {
+			if rng.Chance(12) && !cfg.two {
 				s.esmOn1(!rng.Chance(20))
 			}
 			s.tick1(time.Duration(dt) * time.Second)
@@ -1412,6 +1514,9 @@ type c10cfgL struct {
 	buffer string
 	cusp   string
 	sweep  bool // after the keeper message for borrow 1 the sweep seizes borrow 2 as well (a second auction shares the module account)
+	trackSecond bool  // (sweep) follow the auction of borrow 2, whose lend position belongs to the other lender
+	shiftAuc    uint64 // lend-auction-id counter ahead
+	shiftLv     uint64 // locked-vault-id counter ahead (vault liquidations share it)
 	resFund int64 // debt-denom funds of the lend reserve (lend module account): pays when the collateral is sold out below the target
 }
 
@@ -1443,9 +1548,27 @@ func c10startL(t *testing.T, f *c10fix, tr *Trace, cfg c10cfgL) *c10seqL {
 	}
 	c10setTwa(app, ctx, s.p.coll.id, cfg.dropTo, true)
 	mod := app.AccountKeeper.GetModuleAddress(auctiontypes.ModuleName)
-	before := app.BankKeeper.GetBalance(ctx, mod, s.p.coll.denom).Amount
+	if cfg.shiftAuc > 0 {
+		app.AuctionKeeper.SetLendAuctionID(ctx, app.AuctionKeeper.GetLendAuctionID(ctx)+cfg.shiftAuc)
+		tr.Count("worldL:auction-id-ahead")
+	}
+	if cfg.shiftLv > 0 {
+		app.LiquidationKeeper.SetLockedVaultID(ctx, app.LiquidationKeeper.GetLockedVaultID(ctx)+cfg.shiftLv)
+		tr.Count("worldL:locked-vault-id-ahead")
+	}
 	idBefore := app.AuctionKeeper.GetLendAuctionID(ctx)
-	if ok, _ := c10deliver(app, ctx, &liquidationtypes.MsgLiquidateBorrowRequest{From: c10addr("keeper").String(), BorrowId: 1}); !ok {
+	borrowID := uint64(1)
+	if cfg.sweep && cfg.trackSecond {
+		// borrow 1 first (its auction is the other one), then the tracked borrow 2 of the other lender
+		if ok, _ := c10deliver(app, ctx, &liquidationtypes.MsgLiquidateBorrowRequest{From: c10addr("keeper").String(), BorrowId: 1}); !ok {
+			return fail("liquidate-borrow-msg")
+		}
+		borrowID = 2
+		idBefore++
+		tr.Count("worldL:track-second-borrow")
+	}
+	before := app.BankKeeper.GetBalance(ctx, mod, s.p.coll.denom).Amount
+	if ok, _ := c10deliver(app, ctx, &liquidationtypes.MsgLiquidateBorrowRequest{From: c10addr("keeper").String(), BorrowId: borrowID}); !ok {
 		return fail("liquidate-borrow-msg")
 	}
 	deposit := app.BankKeeper.GetBalance(ctx, mod, s.p.coll.denom).Amount.Sub(before)
@@ -1454,13 +1577,24 @@ func c10startL(t *testing.T, f *c10fix, tr *Trace, cfg c10cfgL) *c10seqL {
 	if !ok {
 		return fail("no-auction")
 	}
-	if cfg.sweep {
+	if cfg.sweep && !cfg.trackSecond {
 		if err := app.LiquidationKeeper.LiquidateBorrows(ctx); err != nil {
 			return fail("sweep")
 		}
 	}
 	rates, _ := app.LendKeeper.GetAssetRatesParams(ctx, s.p.coll.id)
 	lv, _ := app.LiquidationKeeper.GetLockedVault(ctx, f.appID, a.LockedVaultId)
+	if a.AuctionId != lv.LockedVaultId {
+		tr.Count("worldL:auction-id-differs-from-locked-vault-id")
+	}
+	if oa, err := sdk.AccAddressFromBech32(lv.Owner); err == nil {
+		s.ownerAddr = oa // the borrower recorded at seizure
+		if oa.Equals(c10addr("lender1")) {
+			s.otherAddr = c10addr("lender2")
+		} else {
+			s.otherAddr = c10addr("lender1")
+		}
+	}
 	pair, _ := app.LendKeeper.GetLendPair(ctx, lv.ExtendedPairId)
 	tr.Line("dutch.l1.begin", fmt.Sprintf("decC=%d;decD=%d;target=%s;coll0=%s;deposit=%s;bonus=%s;dust=%d;T=%d;buffer=%s;cusp=%s;twaC=%d",
 		s.p.coll.dec, s.p.debt.dec, a.InflowTokenTargetAmount.Amount, a.OutflowTokenInitAmount.Amount, deposit, c10raw(rates.LiquidationBonus), pair.MinUsdValueLeft, cfg.T,
@@ -1785,12 +1919,36 @@ func TestC10(t *testing.T) {
 	for i := 0; i < nL; i++ {
 		cfg := c10cfgL{dropTo: []uint64{1860000, 1800000, 1700000, 1500000, 1200000, 900000, 400000}[rng.Intn(7)],
 			T: []uint64{10, 60, 600, 3600, 21600}[rng.Intn(5)], buffer: []string{"1.2", "1.05", "1.5", "1"}[rng.Intn(4)],
-			cusp: []string{"0.7", "0.5", "0.9", "0.3"}[rng.Intn(4)], sweep: rng.Chance(40), resFund: []int64{0, 1000, 500000000, 500000000}[rng.Intn(4)]}
+			cusp: []string{"0.7", "0.5", "0.9", "0.3"}[rng.Intn(4)], sweep: rng.Chance(50), resFund: []int64{0, 1000, 500000000, 500000000}[rng.Intn(4)]}
+		cfg.trackSecond = cfg.sweep && rng.Chance(50)
+		if rng.Chance(45) {
+			cfg.shiftAuc = []uint64{0, 1, 2}[rng.Intn(3)]
+			cfg.shiftLv = []uint64{0, 1, 3}[rng.Intn(3)]
+		}
 		s := c10startL(t, fl, tr, cfg)
 		if s == nil {
 			continue
 		}
 		s.randomOpsL(rng, cfg)
+	}
+
+	// ---- first-generation vault auctions in the lend world: a REAL borrow liquidation takes locked vault id 1 first
+	flv := &c10fix{app: fl.app, base: fl.base, appID: 2, t0: fl.t0,
+		pairs: []c10pair{{coll: fl.pairs[0].coll, debt: c10asset{3, "uasset3", 1000000}, extID: 1, cmst: true}}}
+	nV := scale(60, 2000)
+	for i := 0; i < nV; i++ {
+		cfg := c10genCfg1(flv, rng)
+		cfg.pair = 0
+		cfg.lendFirst = true
+		cfg.shiftAuc, cfg.shiftLv = 0, 0
+		if cfg.dropTo > 1500000 {
+			cfg.dropTo = 1500000 // the borrow must be liquidatable too
+		}
+		s := c10start1(t, flv, tr, cfg)
+		if s == nil {
+			continue
+		}
+		s.randomOps1(rng, cfg)
 	}
 
 	// ---- generated sequences
